@@ -426,7 +426,7 @@ int main()
   unsigned long count(0);
   while (std::getline(std::cin, line))
   {
-    alarm(20);  // a run-away loop (e.g. destroy_range(b, e) with b > e) ends the process
+    alarm(3);   // a run-away loop (e.g. destroy_range(b, e) with b > e) ends the process
     std::istringstream ss(line);
     std::string ty, w;
     std::size_t s(0);
